@@ -629,6 +629,13 @@ func (r *Run) runHandlerOps(ctx context.Context, stream grpc.ServerStream) {
 			r.rec(Event{Who: "h", Op: "gate:" + op.Gate, Call: true})
 			<-r.gate(op.Gate)
 			r.rec(Event{Who: "h", Op: "gate:" + op.Gate})
+		case "gatesoft": // gate that opens by itself after a short while (the scenario behind it may be impossible)
+			r.rec(Event{Who: "h", Op: "gate:" + op.Gate, Call: true})
+			select {
+			case <-r.gate(op.Gate):
+			case <-time.After(60 * time.Millisecond):
+			}
+			r.rec(Event{Who: "h", Op: "gate:" + op.Gate})
 		case "gatectx": // gate that a context end also opens
 			r.rec(Event{Who: "h", Op: "gate:" + op.Gate, Call: true})
 			select {
@@ -977,6 +984,13 @@ func (r *Run) runClientOps(who string, st grpc.ClientStream, ops []Op) {
 		case "gate":
 			r.rec(Event{Who: who, Op: "gate:" + op.Gate, Call: true})
 			<-r.gate(op.Gate)
+			r.rec(Event{Who: who, Op: "gate:" + op.Gate})
+		case "gatesoft":
+			r.rec(Event{Who: who, Op: "gate:" + op.Gate, Call: true})
+			select {
+			case <-r.gate(op.Gate):
+			case <-time.After(60 * time.Millisecond):
+			}
 			r.rec(Event{Who: who, Op: "gate:" + op.Gate})
 		case "signal":
 			r.Release(op.Gate)
